@@ -111,7 +111,9 @@ void run_case(ByteSource& s, CaseInfo& ci) {
       if (!adaptive) { S->Set_rel_error(1e-6); S->Set_abs_error(1e-6); T->Set_rel_error(1e-6); T->Set_abs_error(1e-6); }
       struct RestoreTol { TSolver *a, *b; double r, ab; bool on; ~RestoreTol() { if (on) { a->Set_rel_error(r); a->Set_abs_error(ab); b->Set_rel_error(r); b->Set_abs_error(ab); } } };
       double tprev = S->Get_t();
+      struct Forbid { TSolver *a, *b; Forbid(TSolver* a_, TSolver* b_, bool on) : a(a_), b(b_) { a->forbid_terms = on; b->forbid_terms = on; } ~Forbid() { a->forbid_terms = false; b->forbid_terms = false; } } forbid(S.get(), T.get(), eff == 0);
       try { RestoreTol rt{S.get(), T.get(), cur_rel, cur_abs, !adaptive}; S->Evolve(dt); T->Evolve(dt); }
+      catch (const Fail&) { throw; }
       catch (const std::exception& e) { throw Fail(fmt("C10|Evolve|throws|%s-%s|dt%s0", STEPPER_NAMES[stepper], adaptive ? "adaptive" : "fixed", dt == 0 ? "=" : ">"), fmt("exception '%s' :: %s", e.what(), hist.c_str())); }
       for (int ix = 0; ix < P->nx; ix++) {
         for (int ir = 0; ir < P->nr; ir++) for (int k = 0; k < P->d * P->d; k++) CHECK(bit_equal(S->rho(ix, ir)[k], T->rho(ix, ir)[k]), "C10|differs-from-never-moved-twin", "node %d matrix %d slot %d: %.17g vs twin %.17g :: %s", ix, ir, k, S->rho(ix, ir)[k], T->rho(ix, ir)[k], hist.c_str());
